@@ -3,20 +3,23 @@
    S-model:  py_call  (Python's argument binding, per parameter) and py_bind (the "equivalent Python call"
              of a tag's argument sequence: positional after keyword = error, repeated keyword = error,
              else bind  render(self, context, *positional, **keywords)).
-   M-model:  transliteration of
-               node.py:137-161            wsplit        (NodeMeta.wrapper_render: special kwargs -> dict)
-               template_tag.py:292-327,
-                               400-437     vstep/vloop   (the argument loop, shared text of both validators)
-               template_tag.py:371-390,
-                               430-432,
-                               446-461     code_view / code_action   (_validate_params_with_code, fast path)
-               template_tag.py:266-289,
-                               323, 337-353 sig_view / sig_action    (_validate_params_with_signature)
+   M-model:  transliteration of (line numbers of /repo at 87d326f)
+               template_tag.py:68-100      resolve_params (spreads flattened; non-str mapping key refused, 85-88)
+               node.py:137-161             wsplit        (NodeMeta.wrapper_render: special kwargs -> dict)
+               template_tag.py:296-338,
+                               408-452     vstep/vloop   (the argument loop, same text in both validators)
+               template_tag.py:382-401,
+                               444-448,
+                               461-476     code_view / code_action   (_validate_params_with_code, fast path)
+               template_tag.py:272-294,
+                               334, 347-364 sig_view / sig_action    (_validate_params_with_signature)
+               node.py:81-83               sparams_of    (validation_params[2:])
                node.py:193                 the final call orig_render(self, context, *args, **kwargs) = py_call
-             impl_bind = py_call o validator o wsplit o resolve.
+             impl_bind = py_call o validator o wsplit o resolve_params.
    The model is the code of /repo as it is after the fix commits 3c868d2 (no keyword default for positional-only
    parameters), 8478320 (repeated non-identifier key refused in wrapper_render), 81cf028 (name of a
-   positional-only parameter accepted as a key of **kwargs) and 87d326f (non-str key of a spread mapping refused).  Definitions only; proofs in Bind/Proofs.v. *)
+   positional-only parameter accepted as a key of **kwargs) and 87d326f (non-str key of a spread mapping refused).
+   Definitions only; proofs in Bind/Proofs.v. *)
 From DJC Require Import Lib.Base.
 
 (* ---------- small dictionary / set helpers over str keys ---------- *)
@@ -215,7 +218,7 @@ Section Impl.
           | Ok u => Ok (mkV false u (v_args s ++ [v]) (v_kwargs s) (S (v_idx s)))
           end
     | (Some k, v) =>
-        (* template_tag.py:324-326 / 435-437: the name of a positional-only parameter may still be a key of **kwargs *)
+        (* template_tag.py:328-330 / 439-441: the name of a positional-only parameter may still be a key of **kwargs *)
         let exempt := w_vk w && smem k (w_ponames w) && negb (kmem k (v_kwargs s)) in
         if smem k (v_used s) && negb exempt then Err TypeError
         else if negb (w_valid w k) then Err TypeError
